@@ -23,3 +23,4 @@ def run(ck):
     matrix.r16_elementary_updates_are_products(ck, P)
     matrix.r17_zero_divisor_always_reported(ck, P)
     matrix.r18_division_digit_shortcuts_are_strict(ck, P)
+    matrix.r19_division_guarded_by_its_zero_test(ck, P)
